@@ -12,15 +12,17 @@ META = {
         "attained.  The checksum part is a count of unequal positions (symmetric, zero iff equal, maximum = size).  "
         "max_distance is shown to mirror compare_with_config term by term (so Default = NoLength + length term and "
         "the bound is the sum of part maxima), and clear_checksum is shown to zero the whole checksum array and "
-        "nothing else.  For the BODY part the per-dibit arithmetic of the bit-sliced kernel (its symmetry, zero and "
-        "maximum) is not decided statically; what is decided (R-08.6) is that every compiled backend -- scalar 32/64-bit, "
-        "SSE2, SSE4.1, AVX2 -- has the same operation DAG for the kernel core with the two bodies in the same operand "
-        "roles, the backend-specific horizontal sums use lanes wide enough, and the loads cover each body exactly once; "
-        "so a law that holds for one backend holds for all of them."
+        "nothing else.  For the BODY part (R-08.6) the bit-sliced kernel core is interpreted abstractly over byte lanes "
+        "(per lane a 65,536-entry table of the lane's value plus a mask of bits a neighbouring lane could influence; "
+        "shifts, masks, carry-free adds and borrow-free subtractions have exact transfer functions): the resulting "
+        "table is symmetric, zero exactly on equal bytes, and has maximum 24 = 4 dibits x 6, attained at 00/ff; every "
+        "compiled backend -- scalar 32/64-bit, SSE2, SSE4.1, AVX2, NEON -- has the same operation DAG for the core with "
+        "the two bodies in the same operand roles, the horizontal sums cannot overflow their lanes, and the loads cover "
+        "each body exactly once; so the laws hold for every backend."
     ),
     "trusted_base": ["rustc nightly front end and constant evaluator"],
     "assumptions": ["analysed targets: x86_64; aarch64 (NEON kernel) in the thorough tier"],
-    "not_decided": ["symmetry, reflexivity and maximum of the bit-sliced body-distance kernel"],
+    "not_decided": ["the portable-SIMD body kernel (does not compile with the installed nightly)"],
 }
 
 
@@ -50,6 +52,7 @@ def run(ctx, FS):
         ctx.rule(r, "every body-distance backend computes the same symmetric per-dibit kernel: sibling agreement of the SIMD operation DAGs with the "
                     "scalar reference (operands of the two bodies are interchangeable in the DAG), loads cover each body exactly once", "N")
         simd.body_kernels(ctx, r, F)
+        simd.lane_laws(ctx, r, F)
 
 
 def clear_checksum(ctx, r, F):
